@@ -43,6 +43,10 @@ def check(pid, tier, replay=None):
         for ifc, pos in (("abmf", 0), ("rating", 1), ("rating", 2)):
             for f0 in ("slow", "drop"):
                 cases.append(dict(id="C19-rel-%s%d-%s" % (ifc, pos, f0), iface=ifc, fates=[f0, "prompt", "prompt"], pos=pos, dense=False, release2=True))
+        # recharge notifications for another rating group arriving while the updates are served
+        for ifc, pos in (("rating", 1), ("rating", 2), ("abmf", 0)):
+            for f0 in ("slow", "drop"):
+                cases.append(dict(id="C19-rech-%s%d-%s" % (ifc, pos, f0), iface=ifc, fates=[f0, "prompt", "prompt"], pos=pos, dense=False, recharge=True))
         mode, chunk, nw = "link", 1, 16
     else:
         if tier == "quick":
